@@ -7,16 +7,16 @@ HOOK_COMMITS = ["d1f6e81"]  # /repo commit adding verif_export.go and internal/r
 # id -> (level category, technique, text, note, design_ref)
 CHECKS = {
  "C01": ("exploration", "bounded exhaustive input/configuration enumeration on the real generated code",
-   "Every record sequence over a structural alphabet x every partition into Write batches x every page size x codec (plus optional-bool packing, value extremes, run-structured long inputs and every record structure up to a node bound) is written and read back by the real generated code; nothing is sampled, so every failure below the bounds is found.",
+   "Every record sequence over a structural alphabet x every partition into Write batches x every page size x codec, plus optional-bool packing, value extremes, run-structured long inputs (incl. long lists), every record structure up to a node bound, nested lists in every length combination, huge strings, many row groups and zero-row files, is written and read back by the real generated code; nothing is sampled, so every failure below the bounds is found.",
    "Values outside the alphabets and sizes beyond the bounds are not covered; equality is nil==empty slice, floats by bits.", "4/C01"),
  "C02": ("exploration", "bounded exhaustive enumeration + independent reference validator",
    "Every file of C01's exhaustive families plus nested/same-named-group shapes is parsed by an independent reference implementation that follows the footer's offsets and separately walks the file from byte 4; all footer and page-header claims are compared with the bytes.",
    "The reference parser (mc/refpq) is the trusted oracle; lenient where the property is silent (file_offset, encodings list, total_byte_size compressed or uncompressed).", "4/C02"),
  "C03": ("exploration", "exhaustive structure enumeration vs reference Dremel striping",
-   "Every nil/non-nil and list-length combination up to a node bound, singly and in ordered pairs, is written; the levels and values the reference parser decodes per column are compared with the Dremel paper's striping, and a specification-only assembly must return the records.",
+   "Every nil/non-nil and list-length combination up to a node bound, singly and in ordered pairs, nested lists in every length combination and run-structured long inputs are written; the levels and values the reference parser decodes per column are compared with the Dremel paper's striping, and a specification-only assembly must return the records.",
    "Catalogue shapes only (others under C05); reference striping pinned to the Dremel paper example.", "4/C03"),
  "C04": ("exploration", "deviation-bounded enumeration of physical encodings by an independent writer",
-   "For fixed logical content an independent writer emits every file within <= d deviations from a baseline physical plan (all legal level run plans, page splits, codecs, snappy stream shapes, optional thrift content) and the generated reader must return the records; d=1 exhaustive, d=2 over a reduced set, plus long run families.",
+   "For fixed logical content an independent writer emits every file within <= d deviations from a baseline physical plan (all legal level run plans, page splits incl. a menu of splits for 20-record contents, codecs, snappy stream shapes, optional thrift content, legal BIT_PACKED labels) and the generated reader must return the records; d=1 exhaustive, d=2 over a reduced set, plus long run families.",
    "Foreign writer and reference parser cross-checked on every file; snappy/gzip libraries trusted; zero padding bits.", "4/C04"),
  "C05": ("exploration", "exhaustive program enumeration over a bounded struct grammar (generate, compile, run against reference oracles)",
    "Every struct definition of the grammar (quick: 2073 shapes of depth<=2 with <=2 leaves plus leaf-type x context; thorough: depth<=3 / 3 leaves) goes through the freshly built parquetgen twice, the Go compiler, and the round-trip, validity and striping oracles on every value up to a node bound; each failing (shape, class) must be in the committed known-findings list.",
@@ -37,7 +37,7 @@ CHECKS = {
    "For every workload and codec, every index k of the failing Read/Seek/ReadByte call, three error kinds, transient/sticky/with-data (pairs in thorough): error reported or all rows correct, never a panic.",
    "Rows delivered before a reported error are not judged.", "4/C10"),
  "C11": ("fault_enumeration", "exhaustive enumeration of truncation points",
-   "Every strict prefix of every workload file is opened and iterated: an error must be reported, no panic.",
+   "Every strict prefix of every workload file (incl. zero-row-group and one-record files) is opened and iterated, and for a grid of (row groups x rows in the last row group) every cut inside the last 12 bytes: an error must be reported, no panic.",
    "Prefixes that are themselves complete valid files are excluded by construction and re-validated.", "4/C11"),
  "C12": ("exploration", "exhaustive ordered page contents over per-type alphabets vs reference page decode",
    "Every ordered page content up to length m over each type's alphabet with nulls interleaved, for all 24 column kinds and nested contexts: null_count exact, min/max (when present) bound every value in the type's order.",
@@ -55,7 +55,7 @@ CHECKS = {
    "ReadMetaData, PageHeaders and PageHeadersAtOffset (every chunk start and every page start) are compared field by field with the reference parser's footer tree and sequential walk over the exhaustive file families.",
    "Library-written files only.", "4/C16"),
  "C17": ("exploration", "complete enumeration of the finite domain on the real code",
-   "Every one of the 2^8+2^16+2^24+2^32 value groups / byte groups of width 1-4 is pushed through the real internal/bitpack and compared with the specification's LSB-first little-endian layout and both round trips; the domain is finite, so this is a complete decision, not a bound.",
+   "Every one of the 2^8+2^16+2^24+2^32 value groups / byte groups of width 1-4 is pushed through the real internal/bitpack and compared with the specification's LSB-first little-endian layout and both round trips (and a result kept across a later call must stay unchanged); the domain is finite, so this is a complete decision, not a bound.",
    "Trusts the closed-form layout oracle (self-checked against a bit-by-bit packer) and the thin verif-tag re-export wrappers.", "4/C17"),
  "C18": ("exploration", "exhaustive placement of one unsupported feature at every (row group, column, page) of valid foreign files",
    "Every unsupported page type, value encoding, level encoding and codec, genuinely encoded where feasible, at every position: the reader must report an error, never rows, never panic; negative controls must be accepted.",
